@@ -58,7 +58,7 @@ def main():
         if not caught:
             missed.append(sid)
         print("%-8s %s %s" % (sid, "caught by " + caught if caught else "MISSED", "; ".join(detail.get(caught, {}).get("signatures", [])[:2]) if caught else json.dumps({c: v["exit"] for c, v in detail.items()})), flush=True)
-    json.dump(dict(results=res, missed=missed, total=len(ids)), open(os.path.join(VERIF, "seeded", "REGRESSION.json"), "w"), indent=1)
+    json.dump(dict(seed=int(os.environ.get("VERIF_SEED", "1")), results=res, missed=missed, total=len(ids)), open(os.path.join(VERIF, "seeded", "REGRESSION.json"), "w"), indent=1)
     print("total=%d caught=%d missed=%s" % (len(ids), len(ids) - len(missed), missed))
     sys.exit(1 if missed else 0)
 
